@@ -96,19 +96,26 @@ mod verif_c18_cid_binding {
         if kani::any() { Some(any_cid()) } else { None }
     }
 
-    /// spec equality of connection ids: same length, same bytes (written out; does not call the code's `eq`)
+    /// the first `len` bytes of a connection id as one number (loop-free; bytes beyond `len` are masked off)
+    fn key(c: &ConnectionId) -> (u128, u32) {
+        let b = &c.bytes;
+        let lo = u128::from_le_bytes([
+            b[0], b[1], b[2], b[3], b[4], b[5], b[6], b[7], b[8], b[9], b[10], b[11], b[12], b[13], b[14], b[15],
+        ]);
+        let hi = u32::from_le_bytes([b[16], b[17], b[18], b[19]]);
+        let n = c.len as u32;
+        if n >= 20 {
+            (lo, hi)
+        } else if n >= 16 {
+            (lo, hi & ((1u32 << (8 * (n - 16))) - 1))
+        } else {
+            (lo & ((1u128 << (8 * n)) - 1), 0)
+        }
+    }
+
+    /// spec equality of connection ids: same length, same first `len` bytes (does not call the code's `eq`)
     fn same(a: &ConnectionId, b: &ConnectionId) -> bool {
-        if a.len != b.len {
-            return false;
-        }
-        let mut i = 0;
-        while i < crate::cid::MAX_CID_SIZE {
-            if i < a.len as usize && a.bytes[i] != b.bytes[i] {
-                return false;
-            }
-            i += 1;
-        }
-        true
+        a.len == b.len && key(a) == key(b)
     }
 
     fn opt_same(a: &Option<ConnectionId>, b: &ConnectionId) -> bool {
@@ -120,6 +127,19 @@ mod verif_c18_cid_binding {
 
     fn is_tp_error(r: &Result<(), QuicError>) -> bool {
         matches!(r, Err(e) if e.kind() == ErrorKind::TransportParameter)
+    }
+
+    // `Waker::wake` / `drop(Waker)` are calls through the RawWakerVTable; CBMC's function-pointer removal then
+    // considers every `fn(*const ())` of the linked crates (tokio, futures, ...) a callee (2+ min of
+    // preprocessing, 1M variables). In the binding flows no waker is ever registered (`wakers` stays empty, proved
+    // as a clause), so the two calls are replaced by "unreachable" stubs there.
+    fn waker_wake_never(w: Waker) {
+        assert!(false, "C18.cid.sup.no_waker_registered_in_binding_flows");
+        std::mem::forget(w);
+    }
+
+    fn waker_drop_never(_w: &mut Waker) {
+        assert!(false, "C18.cid.sup.no_waker_registered_in_binding_flows");
     }
 
     fn poll_is_ready(p: &mut Parameters) -> bool {
@@ -231,7 +251,9 @@ mod verif_c18_cid_binding {
             p.recv_remote_params(received_set::<Server>())
         };
 
-        let bound = opt_same(&iscid, &wire_scid) && opt_same(&odcid, &origin_dcid);
+        let iscid_ok = opt_same(&iscid, &wire_scid);
+        let odcid_ok = opt_same(&odcid, &origin_dcid);
+        let bound = iscid_ok && odcid_ok;
         if bound {
             assert!(last.is_ok(), "C18.cid.client.matching_ids_accepted");
             assert!(p.is_remote_params_ready(), "C18.cid.client.ready_when_bound");
@@ -246,8 +268,8 @@ mod verif_c18_cid_binding {
         assert!(opt_same(&p.initial_scid_from_peer(), &wire_scid), "C18.cid.client.sup.wire_scid_recorded");
 
         kani::cover!(bound, "C18.cid.client.reach_bound");
-        kani::cover!(!opt_same(&iscid, &wire_scid) && opt_same(&odcid, &origin_dcid), "C18.cid.client.reach_iscid_mismatch_only");
-        kani::cover!(opt_same(&iscid, &wire_scid) && !opt_same(&odcid, &origin_dcid), "C18.cid.client.reach_odcid_mismatch_only");
+        kani::cover!(!iscid_ok && odcid_ok, "C18.cid.client.reach_iscid_mismatch_only");
+        kani::cover!(iscid_ok && !odcid_ok, "C18.cid.client.reach_odcid_mismatch_only");
         kani::cover!(bound && wire_scid.len == 0, "C18.cid.client.reach_zero_length_scid");
         kani::cover!(bound && wire_scid.len == 20, "C18.cid.client.reach_max_length_scid");
         std::mem::forget(p); // tool limit: dropping the Arc'd sets makes CBMC walk hashbrown's drop loops
@@ -308,6 +330,8 @@ mod verif_c18_cid_binding {
     #[kani::stub(crate::param::core::Parameters::get, crate::param::core::Parameters::oracle_get)]
     #[kani::stub(crate::param::core::Parameters::is_empty, oracle_is_empty)]
     #[kani::stub(crate::param::core::Parameters::contains, oracle_contains)]
+    #[kani::stub(std::task::Waker::wake, waker_wake_never)]
+    #[kani::stub(<std::task::Waker as std::ops::Drop>::drop, waker_drop_never)]
     fn client_params_then_packet() {
         client_binding_contract(true, false);
     }
@@ -318,6 +342,8 @@ mod verif_c18_cid_binding {
     #[kani::stub(crate::param::core::Parameters::get, crate::param::core::Parameters::oracle_get)]
     #[kani::stub(crate::param::core::Parameters::is_empty, oracle_is_empty)]
     #[kani::stub(crate::param::core::Parameters::contains, oracle_contains)]
+    #[kani::stub(std::task::Waker::wake, waker_wake_never)]
+    #[kani::stub(<std::task::Waker as std::ops::Drop>::drop, waker_drop_never)]
     fn client_packet_then_params() {
         client_binding_contract(false, false);
     }
@@ -328,6 +354,8 @@ mod verif_c18_cid_binding {
     #[kani::stub(crate::param::core::Parameters::get, crate::param::core::Parameters::oracle_get)]
     #[kani::stub(crate::param::core::Parameters::is_empty, oracle_is_empty)]
     #[kani::stub(crate::param::core::Parameters::contains, oracle_contains)]
+    #[kani::stub(std::task::Waker::wake, waker_wake_never)]
+    #[kani::stub(<std::task::Waker as std::ops::Drop>::drop, waker_drop_never)]
     fn client_params_then_packet_0rtt() {
         client_binding_contract(true, true);
     }
@@ -338,6 +366,8 @@ mod verif_c18_cid_binding {
     #[kani::stub(crate::param::core::Parameters::get, crate::param::core::Parameters::oracle_get)]
     #[kani::stub(crate::param::core::Parameters::is_empty, oracle_is_empty)]
     #[kani::stub(crate::param::core::Parameters::contains, oracle_contains)]
+    #[kani::stub(std::task::Waker::wake, waker_wake_never)]
+    #[kani::stub(<std::task::Waker as std::ops::Drop>::drop, waker_drop_never)]
     fn client_packet_then_params_0rtt() {
         client_binding_contract(false, true);
     }
@@ -348,6 +378,8 @@ mod verif_c18_cid_binding {
     #[kani::stub(crate::param::core::Parameters::get, crate::param::core::Parameters::oracle_get)]
     #[kani::stub(crate::param::core::Parameters::is_empty, oracle_is_empty)]
     #[kani::stub(crate::param::core::Parameters::contains, oracle_contains)]
+    #[kani::stub(std::task::Waker::wake, waker_wake_never)]
+    #[kani::stub(<std::task::Waker as std::ops::Drop>::drop, waker_drop_never)]
     fn server_params_then_packet() {
         server_binding_contract(true);
     }
@@ -358,6 +390,8 @@ mod verif_c18_cid_binding {
     #[kani::stub(crate::param::core::Parameters::get, crate::param::core::Parameters::oracle_get)]
     #[kani::stub(crate::param::core::Parameters::is_empty, oracle_is_empty)]
     #[kani::stub(crate::param::core::Parameters::contains, oracle_contains)]
+    #[kani::stub(std::task::Waker::wake, waker_wake_never)]
+    #[kani::stub(<std::task::Waker as std::ops::Drop>::drop, waker_drop_never)]
     fn server_packet_then_params() {
         server_binding_contract(false);
     }
@@ -395,6 +429,8 @@ mod verif_c18_cid_binding {
     #[kani::stub(crate::param::core::Parameters::get, crate::param::core::Parameters::oracle_get)]
     #[kani::stub(crate::param::core::Parameters::is_empty, oracle_is_empty)]
     #[kani::stub(crate::param::core::Parameters::contains, oracle_contains)]
+    #[kani::stub(std::task::Waker::wake, waker_wake_never)]
+    #[kani::stub(<std::task::Waker as std::ops::Drop>::drop, waker_drop_never)]
     fn client_retry_binding() {
         let origin_dcid = any_cid();
         let wire_scid = any_cid();
